@@ -3,7 +3,7 @@ package rules
 func init() {
 	register(&Property{
 		ID:      "C16",
-		Explain: "Path-sensitive FOLD and CFG rules showing that no path turns a short read or a failed write into success. Reader.Read table: EOF (or a drained limited reader) with payload bytes outstanding is io.ErrUnexpectedEOF, transport errors pass through. Every other consumer of the per-frame limited reader (Discard's drain, the drain of an intermediate control frame) must report an error when the source ended with bytes outstanding (io.Copy swallows EOF). NextFrame: io.EOF between the fragments of a message is io.ErrUnexpectedEOF. Control handlers bound their reads by the announced length. Fragmenting writer: every emission is guarded by the sticky error, its result is stored in it, and every exported method of a failed writer returns that error (R-STICKY). Transport errors are never dropped (R-ERRPROP): the error result of every call that touches the transport reaches a return value or a sticky field. Both handshake decision tables are part of this check: a request or response head that is cut (EOF or transport error, also exactly at a line boundary) never completes the handshake. The control handlers are part of this check: a ping or close cut inside its payload is not answered as if it were complete. discarded-errors: every call in the three packages whose error result is not examined is a reviewed case (37 on the reference tree); a new one is reported. The sticky error survives ResetOp (C18.writer-reset); a handler that drains a payload with io.Copy from a limited reader must compare the count with the announced length. helper-nextreader: NextReader hands back the Reader itself (which turns a cut payload into io.ErrUnexpectedEOF), not a wrapper around it. Discard leaves the fragmentation state to NextFrame (a failed Discard in the middle of a message does not make the end of the stream look clean).",
+		Explain: "Path-sensitive FOLD and CFG rules showing that no path turns a short read or a failed write into success. Reader.Read table: EOF (or a drained limited reader) with payload bytes outstanding is io.ErrUnexpectedEOF, transport errors pass through. Every other consumer of the per-frame limited reader (Discard's drain, the drain of an intermediate control frame) must report an error when the source ended with bytes outstanding (io.Copy swallows EOF). NextFrame: io.EOF between the fragments of a message is io.ErrUnexpectedEOF. Control handlers bound their reads by the announced length. Fragmenting writer: every emission is guarded by the sticky error, its result is stored in it, and every exported method of a failed writer returns that error (R-STICKY). Transport errors are never dropped (R-ERRPROP): the error result of every call that touches the transport reaches a return value or a sticky field. Both handshake decision tables are part of this check: a request or response head that is cut (EOF or transport error, also exactly at a line boundary) never completes the handshake. The control handlers are part of this check: a ping or close cut inside its payload is not answered as if it were complete. discarded-errors: every call in the three packages whose error result is not examined is a reviewed case (37 on the reference tree); a new one is reported. The sticky error survives ResetOp (C18.writer-reset); a handler that drains a payload with io.Copy from a limited reader must compare the count with the announced length. helper-nextreader: NextReader hands back the Reader itself (which turns a cut payload into io.ErrUnexpectedEOF), not a wrapper around it. Discard leaves the fragmentation state to NextFrame (a failed Discard in the middle of a message does not make the end of the stream look clean). Both header decoders (decode-table) run here: a header cut inside its extended length or mask bytes is an error. watcher-protocol (C20): the dial watcher replaces the handshake's I/O error only by the context's error, never by nil. prefetch-keeps-source: the debug dialer's sniffing reader always chains the connection behind the prefetched bytes, so a cut response reaches the handshake as the connection's own error.",
 		Trusted: []string{"go/ssa + go/types", "the checker's abstract evaluator", "io.Copy returns nil when its source reports io.EOF (documented)"},
 		Assume:  []string{"that a cut at every offset of every stream shape is reported is a history property; the rules show no path turns a short read into success"},
 		Run: func(c *Ctx) {
